@@ -427,7 +427,7 @@ func runBehaviour(t *testing.T, tr *vh.Trace, tid string, beh []vh.Req, legacy b
 	time.Sleep(50 * time.Millisecond)
 
 	// wait until the remote watch streams caught up with the direct ones
-	deadline := time.Now().Add(60 * time.Second)
+	deadline := time.Now().Add(15 * time.Second)
 
 	for time.Now().Before(deadline) {
 		same := true
